@@ -24,6 +24,9 @@ func init() {
 		*fBudget = total / 2
 		res := newResult()
 		res.merge(runSched("C12"), "sched_")
+		if *fShard == 0 {
+			readFaultCases(res)
+		}
 		*fBudget = total
 		res.merge(runCodec(), "")
 		return res
@@ -37,6 +40,95 @@ func init() {
 		*fBudget = total
 		res.merge(runSizes(), "")
 		return res
+	}
+}
+
+// readFaultCases: GetLog with the k-th read of the segment file failing, for every k and entries below and above
+// the pooled 64 KiB read buffer, on the tail and (after a reopen) on a sealed segment. A failed GetLog returns
+// an error; afterwards every entry still reads back intact, also by two GetLogs one after the other holding
+// their results (the shim's buffer pool panics when a buffer is released twice - with the real pool the next
+// two readers would share it).
+func readFaultCases(res *ShardResult) {
+	sizes := []int{12, 66000, 70000, 140000}
+	for _, sealed := range []bool{false, true} {
+		seg := 1 << 20
+		if sealed {
+			seg = 4096
+		}
+		sys := core.Mount(simdisk.NewState(), core.Config{SegSize: seg})
+		sys.Disk.NoLog = true
+		var msgs []string
+		vr := vsched.Run(vsched.DefaultChooser{}, 0, false, func() {
+			if err := sys.Open(); err != nil {
+				msgs = append(msgs, "INTERNAL open: "+err.Error())
+				return
+			}
+			var want []*raft.Log
+			for i, n := range sizes {
+				l := core.MkLog(uint64(i+1), 2, n)
+				c := *l
+				want = append(want, &c)
+				if err := sys.W.StoreLog(l); err != nil {
+					msgs = append(msgs, "INTERNAL append: "+err.Error())
+					return
+				}
+				vsched.Quiesce()
+			}
+			if sealed {
+				if err := sys.Apply(core.Op{K: "R"}); err != nil {
+					msgs = append(msgs, "INTERNAL reopen: "+err.Error())
+					return
+				}
+				vsched.Quiesce()
+			}
+			d := sys.Disk
+			d.FaultFileReads = true
+			d.FaultKind = simdisk.FaultClean
+			for _, l := range want {
+				for k := 0; k < 6; k++ {
+					before := d.FaultOps
+					d.FaultAt, d.FaultHit = before+k, nil
+					var g raft.Log
+					err := sys.W.GetLog(l.Index, &g)
+					hit := d.FaultHit != nil
+					d.FaultAt = -1
+					res.Counts["evaluations"]++
+					res.Counts["read_fault_cases"]++
+					if !hit {
+						break // GetLog issues fewer than k+1 reads
+					}
+					res.Counts["distinct_nontrivial"]++
+					if err == nil && sameLog(l, &g) != "" {
+						msgs = append(msgs, fmt.Sprintf("GetLog(%d) (%d-byte payload, sealed=%v) with its read #%d failing returned nil and a different entry: %s", l.Index, len(l.Data), sealed, k+1, sameLog(l, &g)))
+					}
+					// afterwards: everything reads back, results held across the following reads
+					held := make([]raft.Log, len(want))
+					for i, w := range want {
+						if e := sys.W.GetLog(w.Index, &held[i]); e != nil {
+							msgs = append(msgs, fmt.Sprintf("after a GetLog(%d) whose read #%d failed (sealed=%v): GetLog(%d) fails: %v", l.Index, k+1, sealed, w.Index, e))
+						}
+					}
+					for i, w := range want {
+						if dd := sameLog(w, &held[i]); dd != "" && held[i].Index != 0 {
+							msgs = append(msgs, fmt.Sprintf("after a GetLog(%d) whose read #%d failed (sealed=%v): the result of GetLog(%d) changed while later reads ran: %s", l.Index, k+1, sealed, w.Index, dd))
+						}
+					}
+					if len(msgs) > 6 {
+						return
+					}
+				}
+			}
+			sys.W.Close()
+		})
+		for _, p := range vr.Panics {
+			msgs = append(msgs, fmt.Sprintf("panic (sealed=%v): %s\n%s", sealed, p.Val, trimRepoStack(p.Stack)))
+		}
+		sys.Unmount()
+		for i, m := range msgs {
+			if i < 4 && len(res.Findings) < 40 {
+				res.Findings = append(res.Findings, core.Finding{Prop: "C12", Engine: "codec", Msg: m, Extra: map[string]interface{}{"case": "GetLog with a failing read", "sealed": sealed}, SigS: "C12|readfault|" + firstLine(m)})
+			}
+		}
 	}
 }
 
@@ -474,6 +566,9 @@ func runSizes() *ShardResult {
 		// runs under the scheduler: before any free-running WAL of this process exists
 		hugeBatchThenClose(res, add)
 	}
+	if *fShard == 3%*fNShards {
+		thinCodecCases(res, add) // under the scheduler as well
+	}
 	for _, seg := range segSizes {
 		for _, sz := range sizes {
 			for _, pos := range positions {
@@ -489,6 +584,7 @@ func runSizes() *ShardResult {
 	if *fShard == 2%*fNShards {
 		compositeCases(res, add)
 	}
+
 	if *fShard == 0 {
 		big := []int{64<<20 - 64, 64<<20 - 23, 64<<20 - 22, 64<<20 - 1, 64 << 20, 64<<20 + 1}
 		for _, sz := range big {
@@ -503,6 +599,100 @@ func runSizes() *ShardResult {
 	}
 	res.Samples = append(res.Samples, map[string]interface{}{"segment": 4096, "payload": 65536 - 23, "position": "middle"}, map[string]interface{}{"segment": 1 << 20, "payload": 64 << 20, "position": "alone"})
 	return res
+}
+
+// thinCodec encodes an entry as its Data bytes and nothing else (an external codec; ID outside the reserved
+// range), so the encoded size of an entry is exactly len(Data): this reaches encoded sizes 0..19, which the
+// built-in codec (at least 20 bytes per entry) never produces.
+type thinCodec struct{}
+
+func (thinCodec) ID() uint64 { return 70404 }
+func (thinCodec) Encode(l *raft.Log, w io.Writer) error {
+	_, err := w.Write(l.Data)
+	return err
+}
+func (thinCodec) Decode(b []byte, l *raft.Log) error {
+	l.Data = append([]byte(nil), b...)
+	return nil
+}
+
+// thinCodecCases: encoded sizes 0..17 (every padding residue twice, the empty encoding included) alone and in
+// batches, on a segment size that rotates and one that does not; whatever is acknowledged reads back with the
+// same bytes from the tail, from sealed segments and after a reopen.
+func thinCodecCases(res *ShardResult, add func(string, string, map[string]interface{})) {
+	var shapes [][]int
+	for n := 0; n <= 17; n++ {
+		shapes = append(shapes, []int{n})
+	}
+	shapes = append(shapes, []int{3, 0, 5}, []int{0}, []int{8, 1, 0}, []int{0, 7}, []int{9, 16, 17}, []int{0, 0, 0})
+	for _, seg := range []int{256, 1 << 20} {
+		desc := map[string]interface{}{"segment_size": seg, "codec": "external, encoding = Data bytes only", "batches": shapes}
+		res.Counts["evaluations"]++
+		res.Counts["transitions"]++
+		res.Counts["traces_validated"]++
+		res.Counts["distinct_nontrivial"]++
+		sys := core.Mount(simdisk.NewState(), core.Config{SegSize: seg})
+		sys.Codec = thinCodec{}
+		sys.Disk.NoLog = true
+		var msgs []string
+		vr := vsched.Run(vsched.DefaultChooser{}, 0, false, func() {
+			if err := sys.Open(); err != nil {
+				msgs = append(msgs, "INTERNAL open: "+err.Error())
+				return
+			}
+			want := map[uint64][]byte{}
+			next := uint64(1)
+			check := func(phase string) {
+				for idx := uint64(1); idx < next; idx++ {
+					var g raft.Log
+					if err := sys.W.GetLog(idx, &g); err != nil {
+						msgs = append(msgs, fmt.Sprintf("%s: acknowledged entry %d with a %d-byte encoding is unreadable: %v", phase, idx, len(want[idx]), err))
+					} else if !bytes.Equal(g.Data, want[idx]) {
+						msgs = append(msgs, fmt.Sprintf("%s: entry %d (%d-byte encoding) read back as %x, stored %x", phase, idx, len(want[idx]), g.Data, want[idx]))
+					}
+				}
+			}
+			for _, sh := range shapes {
+				var batch []*raft.Log
+				for i, n := range sh {
+					d := make([]byte, n)
+					for k := range d {
+						d[k] = byte(int(next)*7 + i*3 + k + 1)
+					}
+					batch = append(batch, &raft.Log{Index: next + uint64(i), Data: d})
+				}
+				if err := sys.W.StoreLogs(batch); err != nil {
+					msgs = append(msgs, fmt.Sprintf("StoreLogs refused a batch with encoded sizes %v: %v", sh, err))
+					return
+				}
+				vsched.Quiesce()
+				for i, l := range batch {
+					want[next+uint64(i)] = l.Data
+				}
+				next += uint64(len(batch))
+				check(fmt.Sprintf("after the batch with encoded sizes %v", sh))
+				if len(msgs) > 0 {
+					return
+				}
+			}
+			if err := sys.Apply(core.Op{K: "R"}); err != nil {
+				msgs = append(msgs, "reopen failed: "+err.Error())
+				return
+			}
+			vsched.Quiesce()
+			check("after a clean reopen")
+			sys.W.Close()
+		})
+		for _, p := range vr.Panics {
+			msgs = append(msgs, "panic: "+p.Val)
+		}
+		sys.Unmount()
+		for i, m := range msgs {
+			if i < 4 {
+				add("thin-codec|"+fmt.Sprint(seg)+"|"+m, fmt.Sprintf("segment %d, external codec whose encoding is the Data bytes: %s", seg, m), desc)
+			}
+		}
+	}
 }
 
 // compositeCases: a batch whose earlier entries together exceed the writer's 64 KiB buffer and whose last
@@ -730,13 +920,27 @@ func sizeCase(res *ShardResult, add func(string, string, map[string]interface{})
 // closed while the rotation is still queued, so the next Open goes through tail
 // recovery of that sealed segment. Everything acknowledged must read back.
 func hugeBatchThenClose(res *ShardResult, add func(string, string, map[string]interface{})) {
-	for _, seg := range []int{4096, 1 << 20} {
+	type hc struct {
+		seg   int
+		sizes []int
+		eager bool // the VFS reports io.EOF together with a full read that ends at the end of the file
+	}
+	big := []int{17 << 20, 17 << 20, 17 << 20, 17 << 20}
+	cases := []hc{{4096, big, false}, {1 << 20, big, false}}
+	// the same shape at small scale: the sealing batch makes the file end exactly at its commit frame (it
+	// grows beyond the preallocated size), crosses it by little or by a whole segment, on both VFS flavours
+	for _, eager := range []bool{false, true} {
+		cases = append(cases, hc{4096, []int{5000}, eager}, hc{4096, []int{3900, 300}, eager}, hc{4096, []int{100, 9000, 8}, eager},
+			hc{1 << 18, []int{253 << 10}, eager}, hc{1 << 18, []int{320 << 10}, eager}, hc{1 << 18, []int{70000, 70000, 70000, 70000}, eager})
+	}
+	for _, c := range cases {
+		seg := c.seg
 		res.Counts["evaluations"]++
 		res.Counts["transitions"]++
 		res.Counts["traces_validated"]++
 		res.Counts["distinct_nontrivial"]++
-		desc := map[string]interface{}{"segment_size": seg, "batch": "4 x 17 MiB in one StoreLogs, Close before the rotation ran, reopen"}
-		sys := core.Mount(simdisk.NewState(), core.Config{SegSize: seg})
+		desc := map[string]interface{}{"segment_size": seg, "batch_payload_sizes": c.sizes, "eof_with_full_read": c.eager, "batch": "one sealing StoreLogs, Close before the rotation ran, reopen"}
+		sys := core.Mount(simdisk.NewState(), core.Config{SegSize: seg, EagerEOF: c.eager})
 		sys.Disk.NoLog = true
 		mk := func(idx uint64, n int) *raft.Log {
 			l := core.MkLog(idx, 4, 8)
@@ -748,7 +952,11 @@ func hugeBatchThenClose(res *ShardResult, add func(string, string, map[string]in
 			l.Data = b
 			return l
 		}
-		want := []*raft.Log{core.MkLog(1, 0, 8), mk(2, 17<<20), mk(3, 17<<20), mk(4, 17<<20), mk(5, 17<<20)}
+		want := []*raft.Log{core.MkLog(1, 0, 8)}
+		for i, n := range c.sizes {
+			want = append(want, mk(uint64(i+2), n))
+		}
+		nWant := uint64(len(want))
 		var msgs []string
 		vr := vsched.Run(vsched.DefaultChooser{}, 0, false, func() {
 			if err := sys.Open(); err != nil {
@@ -779,8 +987,8 @@ func hugeBatchThenClose(res *ShardResult, add func(string, string, map[string]in
 			}
 			vsched.Quiesce()
 			li, _ := sys.W.LastIndex()
-			if li != 5 {
-				msgs = append(msgs, fmt.Sprintf("after a batch of 4 x 17 MiB entries was acknowledged, Close before the rotation and reopen: LastIndex = %d, want 5", li))
+			if li != nWant {
+				msgs = append(msgs, fmt.Sprintf("after a sealing batch with payloads %v was acknowledged, Close before the rotation and reopen: LastIndex = %d, want %d", c.sizes, li, nWant))
 			}
 			for _, l := range want {
 				var g raft.Log
@@ -797,7 +1005,7 @@ func hugeBatchThenClose(res *ShardResult, add func(string, string, map[string]in
 		}
 		sys.Unmount()
 		for _, m := range msgs {
-			add("huge-batch|"+fmt.Sprint(seg)+"|"+m, fmt.Sprintf("segment %d: %s", seg, m), desc)
+			add("huge-batch|"+fmt.Sprint(seg, c.sizes, c.eager)+"|"+m, fmt.Sprintf("segment %d, io.EOF with a full read at the end of a file: %v: %s", seg, c.eager, m), desc)
 		}
 	}
 }
